@@ -65,6 +65,16 @@ fn main() {
       let prop = props::get(&pid).expect("unknown property");
       std::process::exit(replay(prop.as_ref(), path, args.iter().any(|a| a == "--json")));
     }
+    "trace" => {
+      install_quiet_panic_hook();
+      let src = std::fs::read_to_string(&args[2]).unwrap();
+      let mut s = sess::Sess::new();
+      s.intrp.set_trace_enabled(true); s.intrp.set_trace_to_stdout(false);
+      if let Some(m) = arg(&args, "--max-steps") { s.intrp.max_steps = m.parse().unwrap(); }
+      let r = s.eval(&src);
+      println!("{}", r.show());
+      for e in s.intrp.trace_events() { println!("{:?} | {:?} | {}", e.channel, e.label, e.message); }
+    }
     "flavours" => {
       let prop = props::get(&args[2]).expect("unknown property");
       let tier = Tier::parse(args.get(3).map(|s| s.as_str()).unwrap_or("quick"));
